@@ -121,7 +121,7 @@ impl<T: Value> ErasedObserver for InternalObserver<T> {
             Disallowed | Unlinked => Ok(()),
             Created | InUse => {
                 // delete from the list in either case
-                self.on_update_handlers.borrow_mut().remove(&token);
+                let removed = self.on_update_handlers.borrow_mut().remove(&token).is_some();
 
                 match self.state.get() {
                     Created => {
@@ -129,9 +129,12 @@ impl<T: Value> ErasedObserver for InternalObserver<T> {
                         Ok(())
                     }
                     InUse => {
-                        let observing = self.observing_erased();
-                        let num = observing.num_on_update_handlers();
-                        num.decrement();
+                        // tokens are Copy: a token that was already unsubscribed must not be counted again
+                        if removed {
+                            let observing = self.observing_erased();
+                            let num = observing.num_on_update_handlers();
+                            num.decrement();
+                        }
                         Ok(())
                     }
                     _ => unreachable!(),
